@@ -5,7 +5,7 @@
    shared.PlannerContext, and LineFilterPlanner.Val (overwritten by Process) are threaded
    explicitly, so that executing one plan object several times (live tail) is expressible. *)
 From Coq Require Import List ZArith NArith String Ascii Bool.
-From Qryn Require Import lib.Strs lib.CivilDate model.Sql model.SqlRender model.Logql model.LogqlRegexp.
+From Qryn Require Import lib.Strs lib.CivilDate model.Sql model.SqlRender model.Logql model.LogqlRegexp model.LogqlTemplate.
 Import ListNotations.
 Open Scope string_scope.
 
@@ -67,7 +67,9 @@ Inductive planner :=
  | PTopKP (len : Z) (is_top : bool) (main : planner)
  | PQuantileP (param : string) (dur_ns : Z) (main : planner)
  | PStepFixP (dur_ns : Z) (main : planner)
- | PMetrics15 (f : lra_fn) (dur_ns : Z).
+ | PMetrics15 (f : lra_fn) (dur_ns : Z)
+ (* LineFormatPlanner (planner_line_format.go); formatStr / args are rebuilt by every Process: no state *)
+ | PLineFormatP (tmpl : string) (main : planner).
 
 (* ---------- StreamSelectPlanner ---------- *)
 Definition val_clause (m : matcher) : expr :=
@@ -561,6 +563,16 @@ Fixpoint process (p : planner) (c : pctx) (st : pst) {struct p} : res (select * 
             (set_from (SimpleCol (t_m15 c) "samples")
              (set_cols [Col (bucket_sql "samples.timestamp_ns" dur) "timestamp_ns"; SimpleCol "fingerprint" "fingerprint";
                         SimpleCol "''" "string"; Col (m15_val_sql v) "value"] empty_select))), st, p)
+  | PLineFormatP tmpl main =>
+    do (req, st1, main') <- process main c st;
+    (* ProcessTpl: template.New("tpl<ctx.Id()>") draws the id before Parse (also when Parse fails); the parse tree becomes
+       the format() call that replaces the `string` column (model/LogqlTemplate.v: tpl_parse, tpl_sql). A template
+       outside the transcribed fragment (TUnmodelled) has no model: None here as well, the check asks tpl_parse. *)
+    let '(_, st2) := next_id st1 in
+    match tpl_parse tmpl with
+    | TOk nodes => Some (set_cols (patch_col (s_cols req) "string" (fun _ => tpl_sql nodes)) req, st2, PLineFormatP tmpl main')
+    | _ => None
+    end
   end.
 
 (* ---------- planner.plan() for a stream-selector (log) script ---------- *)
@@ -611,7 +623,7 @@ Definition plan_ts (ms : list matcher) (ppl : list stage) (simple : list bool) :
 
 Definition plan_stage (s : stage) (simple : bool) (cur : planner) : option planner :=
   match s with
-  | PLineFormat _ => None                      (* LineFormatPlanner: not transcribed yet *)
+  | PLineFormat t => Some (PLineFormatP t cur)   (* planLineFormat *)
   | PLabelFilter f => Some (if simple then cur else PLabelFilterP f cur)
   | PLineFilter op v rl => Some (PLineFilterP op v rl cur)
   | PParser fn ps => Some (PParserP fn ps cur)
